@@ -124,6 +124,131 @@ def invariant(objs, opname, r):
     return out
 
 
+# ------------------------------------------------------------------------------------------------ phase 2: many inputs
+def pair_inputs(tier):
+    """Sequences chosen to collide on everything a too-coarse cache key could use: equal charge counts at different lengths,
+    equal composition in different spellings, equal length with different composition, permutations, equal strings."""
+    from ..refmodel import charge as R
+    out = []
+    Ls = (5, 6, 12, 20) if tier == "quick" else (5, 6, 7, 12, 20, 26, 40)
+    for L in Ls:
+        for (p, n) in ((2, 2), (4, 1), (1, 0), (0, 0), (0, 3)):
+            if p + n > L:
+                continue
+            z = L - p - n
+            blocks = "+" * p + "0" * z + "-" * n
+            out.append(R.spell_base(blocks))
+            out.append(R.spell_rotating(blocks[::-1], L))
+            if p and n:
+                out.append(R.spell_rotating("".join(sorted(blocks, key=lambda c: "+0-".index(c)))[::2] + "".join(sorted(blocks, key=lambda c: "+0-".index(c)))[1::2], 1))
+    out += ["K", "P", "KE", "SSSSS", "KKKKKK", "EEEEEEEEEEEE", "ACDEFGHIKLMNPQRSTVWY", "WYVTSRQPNMLKIHGFEDCA"]
+    seen = []
+    for s_ in out:
+        if s_ not in seen:
+            seen.append(s_)
+    return seen
+
+
+def light_ops():
+    return [
+        ("get_kappa", lambda o: o.get_kappa()),
+        ("get_delta", lambda o: o.get_delta()),
+        ("get_deltaMax(True)", lambda o: o.get_deltaMax(True)),
+        ("get_SCD", lambda o: o.get_SCD()),
+        ("get_Omega", lambda o: o.get_Omega()),
+        ("get_kappa_X(ED,KR)", lambda o: o.get_kappa_X(['E', 'D'], ['K', 'R'])),
+        ("get_kappa_X(DEKR)", lambda o: o.get_kappa_X(['D', 'E', 'K', 'R'])),
+        ("get_FCR", lambda o: o.get_FCR()),
+        ("get_NCPR(pH=5)", lambda o: o.get_NCPR(5.0)),
+        ("get_isoelectric_point", lambda o: o.get_isoelectric_point()),
+        ("get_mean_hydropathy", lambda o: o.get_mean_hydropathy()),
+        ("get_uversky_hydropathy", lambda o: o.get_uversky_hydropathy()),
+        ("get_WW_hydropathy", lambda o: o.get_WW_hydropathy()),
+        ("get_PPII_propensity(hilser)", lambda o: o.get_PPII_propensity("hilser")),
+        ("get_PPII_propensity(creamer)", lambda o: o.get_PPII_propensity("creamer")),
+        ("get_PPII_propensity(kallenbach)", lambda o: o.get_PPII_propensity("kallenbach")),
+        ("get_molecular_weight", lambda o: o.get_molecular_weight()),
+        ("get_phasePlotRegion", lambda o: o.get_phasePlotRegion()),
+        ("get_amino_acid_fractions", lambda o: o.get_amino_acid_fractions()),
+        ("get_fraction_disorder_promoting", lambda o: o.get_fraction_disorder_promoting()),
+        ("get_reduced_alphabet_sequence(6)", lambda o: o.get_reduced_alphabet_sequence(6)),
+        ("get_reduced_alphabet_sequence(user)", lambda o: o.get_reduced_alphabet_sequence(userAlphabet=dict(UA))),
+        ("get_linear_complexity(WF,3,w=4)", lambda o: o.get_linear_complexity("WF", 3, blobLen=4)),
+        ("get_linear_complexity(LZW,user,w=5)", lambda o: o.get_linear_complexity("LZW", userAlphabet=dict(UA), blobLen=5)),
+        ("get_linear_NCPR(5)", lambda o: o.get_linear_NCPR(5)),
+        ("get_linear_sigma(5)", lambda o: o.get_linear_sigma(5)),
+        ("get_linear_hydropathy(3)", lambda o: o.get_linear_hydropathy(3)),
+        ("get_linear_sequence_composition()", lambda o: o.get_linear_sequence_composition()),
+        ("get_all_phosphorylatable_sites", lambda o: o.get_all_phosphorylatable_sites()),
+        ("get_HTMLColorString", lambda o: o.get_HTMLColorString()),
+    ]
+
+
+def light_vec(seq):
+    from localcider.sequenceParameters import SequenceParameters as SP
+    from ..apivec import norm
+    with core.quiet():
+        o = SP(seq)
+        out = []
+        for name, f in light_ops():
+            try:
+                out.append((name, norm(f(o))))
+            except Exception as e:  # noqa
+                out.append((name, ("EXC", type(e).__name__)))
+        if o.get_sequence() != seq or o.get_phosphosites() != []:
+            out.append(("object-state", (o.get_sequence(), tuple(o.get_phosphosites()))))
+    return out
+
+
+def task_solo(seq):
+    H.fresh_world()
+    return seq, light_vec(seq)
+
+
+def first_diff(a, b):
+    for (n1, v1), (n2, v2) in zip(a, b):
+        if n1 != n2 or v1 != v2:
+            return n1, v1, v2
+    if len(a) != len(b):
+        return "object-state", None, None
+    return None
+
+
+def run_history(seqs):
+    H.fresh_world()
+    return [light_vec(s_) for s_ in seqs]
+
+
+def task_pairs(args):
+    """History: all analyses of `first`, then of every other input in turn; each must equal its solo result."""
+    first, others, solo = args
+    acc = core.Acc()
+    vecs = run_history([first] + others)
+    acc.states += 1
+    acc.traces += 1
+    for k, b in enumerate(others):
+        acc.transitions += len(solo[b])
+        acc.evaluations += 1
+        d = first_diff(vecs[k + 1], solo[b])
+        if d:
+            # minimise (first two failures only): does (first, b) alone reproduce it? does some recent (b_j, b) ?
+            hist = None
+            nmin = acc.extra.get("minimised", 0)
+            acc.extra["minimised"] = nmin + 1
+            for cand in ([[first]] + [[x] for x in others[max(0, k - 4):k]] if nmin < 2 else []):
+                r = run_history(cand + [b])
+                if first_diff(r[-1], solo[b]):
+                    hist = cand
+                    break
+            if hist is None:
+                hist = [first] + others[:k]
+            acc.viol("depends-on-other-objects:" + d[0],
+                     "after analysing %r, %s on a fresh object for %s returned %r; alone in a pristine world it returns %r"
+                     % (hist, d[0], b, _short(d[1]), _short(d[2])),
+                     {"kind": "pairs", "history": hist, "seq": b, "op": d[0]})
+    return acc
+
+
 _EXP = {}
 
 
@@ -153,6 +278,16 @@ def task_expand(args):
 
 
 def replay(case):
+    if case.get("kind") == "statecap":
+        return [{"key": "state-space-does-not-close", "what": "re-run ./check C15 to reproduce", "case": case}]
+    if case.get("kind") == "pairs":
+        solo = task_solo(case["seq"])[1]
+        r = run_history(list(case["history"]) + [case["seq"]])
+        d = first_diff(r[-1], solo)
+        if d:
+            return [{"key": "depends-on-other-objects:" + d[0], "what": "after %r, %s for %s returned %r, alone %r"
+                     % (case["history"], d[0], case["seq"], _short(d[1]), _short(d[2])), "case": case}]
+        return []
     TIER[0] = case.get("tier", "quick")
     _EXP.clear()
     e = _expander()
@@ -190,7 +325,17 @@ def run(tier, seed, t0):
         frontier = [([], None)]
         first = True
         depth = 0
+        cap = 120 if tier == "quick" else 1500
         while frontier:
+            if len(reps) > cap:
+                # a state space that does not close (e.g. a cache that grows with every call) - stop expanding, say so
+                acc.capped += 1
+                acc.extra["state_cap_hit"] = len(reps)
+                if not acc.nviol:
+                    acc.viol("state-space-does-not-close", "more than %d distinct canonical states were reached by read-only queries "
+                             "(the unchanged tree closes at 54 / 486): some query keeps changing package or object state"
+                             % cap, {"kind": "statecap", "tier": tier})
+                break
             results = pool.map(task_expand, frontier, 1)
             nxt = []
             for hist, res in results:
@@ -244,6 +389,18 @@ def run(tier, seed, t0):
             if depth > 40:
                 acc.extra.setdefault("harness_errors", []).append("no fixpoint after 40 levels")
                 break
+        # ---- phase 2: two-object histories over many inputs (caches shared between objects, keyed on too little)
+        inputs = pair_inputs(tier)
+        solo = dict(pool.imap_unordered(task_solo, inputs, 1))
+        tasks = []
+        for i, a in enumerate(inputs):
+            others = inputs[i + 1:] + inputs[:i]
+            others = others if i % 2 == 0 else list(reversed(others))
+            tasks.append((a, others + [a], solo))
+        for a2 in pool.imap_unordered(task_pairs, tasks, 1):
+            acc.merge(a2)
+        acc.extra["pair_inputs"] = len(inputs)
+        acc.extra["pair_histories"] = len(tasks)
     acc.extra["ops"] = len(ops)
     acc.extra["fixpoint_levels"] = depth
     return core.finish(
@@ -255,9 +412,12 @@ def run(tier, seed, t0):
              "settings; a history is expanded only if its state is new, search runs to the fixpoint (no depth bound); oracle: every "
              "result must be bit-identical to the same call made first on a fresh object that is ALONE in a pristine world, stored sequence and "
              "phosphosites unchanged; merge validation: up to %d alternative histories per state are expanded too and must agree "
-             "on every result and successor state; non-trivial = states other than the initial one; transitions = (state, call) "
-             "pairs executed" % (sorted(build.__code__.co_consts and (["A", "A2", "B"] + (["C", "P"] if tier == "thorough" else []))),
-                                 len(ops), len(ops) // (3 if tier == "quick" else 5), max_alt),
+             "on every result and successor state. Phase 2: %d inputs chosen to collide on coarse cache keys (equal charge counts at "
+             "different lengths, equal composition in different spellings, permutations, equal strings): for every input a, a fresh "
+             "world analyses a with 30 calls and then every other input (and a again on a new object) in turn; each result must "
+             "equal the input's solo result in a pristine world (every ordered pair occurs; a failure is minimised to a pair where "
+             "possible). non-trivial = states other than the initial one; transitions = (state, call) pairs executed" % (sorted(build.__code__.co_consts and (["A", "A2", "B"] + (["C", "P"] if tier == "thorough" else []))),
+                                 len(ops), len(ops) // (3 if tier == "quick" else 5), max_alt, len(pair_inputs(tier))),
         bounds={"objects": 3 if tier == "quick" else 5, "ops": len(ops), "depth": "fixpoint", "merge_validation_per_state": max_alt},
         assumptions=["state outside the canonical serialisation (third-party private state) is assumed irrelevant; merge validation "
                      "would reveal a dependence on it"])
